@@ -158,7 +158,9 @@ def _compare(ck: Checked) -> None:
     for r in ck.paths:
         if r.raised is not None:
             continue
-        nz = M.make_normalizer(cfg)
+        # equality is decided without sign assumptions on the states: the clamps
+        # max(0, x) must not fold away
+        nz = M.make_normalizer(cfg, with_domain=False)
         env = E.Env(r.n1)
         mapping, unusable = M.assumption_substitution(r.assumptions, nz)
         ck.unusable += unusable
